@@ -2,7 +2,7 @@
     Only statements live here; each is closed by [exact] of a lemma proved in coq/UDial. *)
 From Coq Require Import List ZArith Bool Permutation.
 From V Require Import Gen.Params Lib.Hex Wire.Varint USpec.Model USpec.Proofs USpec.ProofsWire
-  UDial.Model UDial.Proofs UDial.Witness UDial.Retx UDial.ProofsRetx.
+  UDial.Model UDial.Proofs UDial.Witness UDial.Retx UDial.ProofsRetx UDial.Reg UDial.ProofsReg.
 Import ListNotations.
 Open Scope Z_scope.
 
@@ -172,3 +172,52 @@ Example C02_ex_layouts :
   marshal_path true (Some l) [(0, 700)] = AsPacked.
 Proof. exact layout_examples. Qed.
 Print Assumptions C02_ex_layouts.
+
+(** (c) Registration (model UDial.Reg of doDial's handler-map write, ReplaceWithClosed with its
+    guarded expiry, Remove): from the moment doDial registered dial k under its source connection
+    ID, packets with that ID are routed to dial k -- from ANY earlier state of the map (whatever
+    dials 1..k-1 left behind: closed-connection entries, armed timers) and through ANY later
+    sequence of timer expiries and of operations under other IDs. *)
+Theorem C02_redial_registered : forall ops st k id,
+  Forall (harmless id) ops ->
+  route (rgrun (rgstep st (RgDial k id)) ops) id = Some (Live k).
+Proof. exact redial_registered. Qed.
+Print Assumptions C02_redial_registered.
+
+(** A gracefully closed connection's entry is removed by its own timer (no leak). *)
+Theorem C02_tombstone_expires : forall st k id,
+  route (rgstep (rgstep st (RgClose k id)) (RgExpire k id)) id = None.
+Proof. exact tombstone_expires. Qed.
+Print Assumptions C02_tombstone_expires.
+
+(** Regressions: on the history dial 1, close 1, dial 2 (same ID, e.g. the empty one) the timer
+    of connection 1 left dial 2 unrouted before cbbefc3 (unconditional delete), and a registration
+    through packetHandlerMap.Add (seeded change C02-f) leaves dial 2's packets with connection 1's
+    closed-connection entry; the code as it is keeps dial 2. *)
+Example C02_ex_legacy_expire_refuted :
+  let st := rgrun (RG [] []) [RgDial 1 0; RgClose 1 0; RgDial 2 0] in
+  route st 0 = Some (Live 2) /\ route (legacy_expire st 1 0) 0 = None /\
+  route (rgstep st (RgExpire 1 0)) 0 = Some (Live 2).
+Proof. exact legacy_expire_refuted. Qed.
+Print Assumptions C02_ex_legacy_expire_refuted.
+
+Example C02_ex_add_dial_refuted :
+  let st := rgrun (RG [] []) [RgDial 1 0; RgClose 1 0] in
+  route (add_dial st 2 0) 0 = Some (Tomb 1) /\
+  route (rgstep (add_dial st 2 0) (RgExpire 1 0)) 0 = None /\
+  route (rgstep st (RgDial 2 0)) 0 = Some (Live 2).
+Proof. exact add_dial_refuted. Qed.
+Print Assumptions C02_ex_add_dial_refuted.
+
+(** (b) A spec-driven Initial packet that carries frames (a retransmission, a PING probe) shares
+    its datagram with nothing, whether or not Handshake data is ready (PackCoalescedPacket after
+    fixes/C02-spec-initial-travels-alone.patch); before, the Handshake packet was put behind it. *)
+Theorem C02_spec_initial_travels_alone : forall frames ping hs,
+  frames <> [] \/ ping = true -> coalesced_count frames ping hs = 1.
+Proof. exact spec_initial_travels_alone. Qed.
+Print Assumptions C02_spec_initial_travels_alone.
+
+Example C02_ex_legacy_coalesced :
+  legacy_coalesced_count [(0, 300)] false true = 2 /\ coalesced_count [(0, 300)] false true = 1.
+Proof. exact legacy_coalesced. Qed.
+Print Assumptions C02_ex_legacy_coalesced.
